@@ -18,7 +18,10 @@ RULE = ('scope/seq: nested with-programs (depth <= 6) over string / a/b shorthan
         'non-trivial(sched) = >= 2 threads with open blocks at the same time and a context switch inside a block. '
         'scope/alias (implementation only): 1-2 real threads entering fresh, captured (`with .. as s`) and re-used list '
         'objects and editing those lists (append / item assignment / pop / clear) in between; every observation must be the '
-        'one the thread\'s own entries and exits prescribe.')
+        'one the thread\'s own entries and exits prescribe. scope/deferred (implementation only): 1-2 real threads building '
+        'config_scope managers and entering them LATER (kept in a variable, handed to the other thread, a list entered through '
+        'contextlib.ExitStack, used as a decorator and called under other scopes) next to ordinary blocks; every block runs under '
+        'compose(scope active in the entering thread at entry, argument). non-trivial(deferred) = at least one deferred entry.')
 TRUSTED_BASE = c01.TRUSTED_BASE + [
     'thread half: model coq/Model/ScopeThreads.v (one stack per thread id); atomic steps are API calls '
     '(enter / exit / observe / call) — preemption inside a step is not modelled',
@@ -625,4 +628,319 @@ class AliasEngine(Engine):
             'tags': ['threads%d' % len(workers), 'edits%d' % min(edits, 3)]}
 
 
-ENGINES = [SeqEngine(), SchedEngine(), AliasEngine()]
+# ----------------------------------------------------------------- scope managers as Python objects
+class DeferredWorker(threading.Thread):
+  """runs one thread's steps of a `scope-deferred-entry` program, one step per release of `go`.  `ref` is the stack of scope
+  VALUES the property text prescribes for THIS thread: a manager's argument is composed with the scope active in the entering
+  thread at the moment of ENTRY (compose()), an exit pops.  Where, when and by which thread the manager object, the decorated
+  function or the list of managers was built plays no part in it."""
+
+  def __init__(self, gin, probe, steps, shared, store):
+    super().__init__(daemon=True, name='worker')
+    self.gin, self.probe, self.steps, self.shared, self.store = gin, probe, steps, shared, store
+    self.go = threading.Semaphore(0)
+    self.done = threading.Semaphore(0)
+    self.out = []
+    self.cms = []
+    self.ref = [[]]
+    self.deferred = 0        # entries (with / decorated call / ExitStack) of a manager that was built earlier
+
+  def want(self, scope):
+    v = None
+    for i in range(len(scope) + 1):
+      v = self.store.get('/'.join(scope[:i]), v)
+    return [list(scope), T('Unbound') if v is None else v]
+
+  def see(self):
+    try:
+      return [list(self.gin.current_scope()), self.probe()]
+    except Exception as e:  # pylint: disable=broad-except
+      return T('Err', type(e).__name__)
+
+  @staticmethod
+  def arg(a):
+    return 5 if isinstance(a, dict) else list(a) if isinstance(a, list) else a
+
+  def enter(self, cm, a):
+    """`with cm:` where cm was built from argument `a`; returns [got, want]"""
+    new, ok = compose(self.ref[-1], self.arg(a))
+    if not ok:
+      try:
+        cm.__enter__()
+      except (ValueError, TypeError):
+        return [T('Rejected'), T('Rejected')]
+      self.cms.append(cm)
+      self.ref.append(list(self.ref[-1]))
+      return [T('Accepted', C.jsonable(a)), T('Rejected')]
+    sc = cm.__enter__()
+    self.cms.append(cm)
+    self.ref.append(new)
+    return [[list(sc)] + [self.see()], [list(new)] + [self.want(new)]]
+
+  def call_decorated(self, name, got, want, scope):
+    """calls the function `name` was decorated into; appends what its body (and the functions the body calls) observe"""
+    ent = self.shared.get('fn:' + name)
+    if ent is None:
+      return
+    fn, a, inner = ent
+    new, ok = compose(scope, self.arg(a))
+    self.deferred += 1
+    if not ok:
+      want.append(T('Rejected'))
+      try:
+        fn(lambda: None)
+        got.append(T('Accepted', C.jsonable(a)))
+      except (ValueError, TypeError):
+        got.append(T('Rejected'))
+      return
+
+    def body():
+      got.append(self.see())
+      want.append(self.want(new))
+      if inner is not None:
+        self.call_decorated(inner, got, want, new)
+        got.append(self.see())
+        want.append(self.want(new))
+    fn(body)
+
+  def step(self, st):
+    gin, k = self.gin, st[0]
+    if k == 'make':                              # m = gin.config_scope(arg)  -- built, not entered
+      try:
+        self.shared['cm:' + st[2]] = (gin.config_scope(self.arg(st[1])), st[1])
+      except (ValueError, TypeError):            # an invalid name may be refused as early as this
+        _, ok = compose([], self.arg(st[1]))
+        if ok:
+          raise
+        self.shared.pop('cm:' + st[2], None)
+      return None
+    if k == 'enter':                             # with m:
+      ent = self.shared.pop('cm:' + st[1], None)
+      if ent is None:
+        return T('Skipped')
+      self.deferred += 1
+      return self.enter(*ent)
+    if k == 'with':                              # with gin.config_scope(arg):   (built and entered on the spot)
+      return self.enter(gin.config_scope(self.arg(st[1])), st[1])
+    if k == 'exit':
+      if not self.cms:
+        return T('Skipped')
+      cm = self.cms.pop()
+      self.ref.pop()
+      if st[1]:
+        try:
+          cm.__exit__(KeyError, KeyError('boom'), None)
+        except KeyError:
+          pass
+      else:
+        cm.__exit__(None, None, None)
+      return [self.see(), self.want(self.ref[-1])]
+    if k == 'observe':
+      return [self.see(), self.want(self.ref[-1])]
+    if k == 'defdec':                            # @gin.config_scope(arg) \n def <name>(): observe; <inner>(); observe
+      deco = gin.config_scope(self.arg(st[1]))
+
+      @deco
+      def fn(body):
+        return body()
+      self.shared['fn:' + st[2]] = (fn, st[1], st[3])
+      return None
+    if k == 'calldec':                           # <name>()  -- k times in a row: the decorator enters the scope per call
+      got, want = [], []
+      for _ in range(st[2]):
+        try:
+          self.call_decorated(st[1], got, want, self.ref[-1])
+        except Exception as e:  # pylint: disable=broad-except
+          got.append(T('Err', type(e).__name__))
+        got.append(self.see())
+        want.append(self.want(self.ref[-1]))
+      return [got, want] if got else T('Skipped')
+    if k == 'stack':                             # ms = [config_scope(a) for a in args]; with ExitStack() as s: for m in ms: s.enter_context(m)
+      import contextlib
+      ms = [gin.config_scope(self.arg(a)) for a in st[1]]
+      got, want, cur = [], [], list(self.ref[-1])
+      try:
+        with contextlib.ExitStack() as stack:
+          for m, a in zip(ms, st[1]):
+            new, ok = compose(cur, self.arg(a))
+            self.deferred += 1
+            if not ok:
+              want.append(T('Rejected'))
+              try:
+                stack.enter_context(m)
+                got.append(T('Accepted', C.jsonable(a)))
+              except (ValueError, TypeError):
+                got.append(T('Rejected'))
+              continue
+            cur = new
+            sc = stack.enter_context(m)
+            got.append([list(sc), self.see()])
+            want.append([list(cur), self.want(cur)])
+          if st[2]:
+            raise KeyError('boom')
+      except KeyError:
+        pass
+      got.append(self.see())
+      want.append(self.want(self.ref[-1]))
+      return [got, want]
+    raise AssertionError(st)
+
+  def run(self):
+    for st in self.steps:
+      self.go.acquire()
+      try:
+        o = self.step(st)
+      except Exception as e:  # pylint: disable=broad-except
+        o = T('Err', type(e).__name__ + ': ' + str(e)[:80])
+      self.out.append(o)
+      if len(self.out) == len(self.steps):
+        while self.cms:
+          try:
+            self.cms.pop().__exit__(None, None, None)
+          except Exception:  # pylint: disable=broad-except
+            pass
+      self.done.release()
+
+
+class DeferredEngine(Engine):
+  """`gin.config_scope(x)` hands the caller a context-manager OBJECT; the property speaks of ENTERING a scope: "entering a named
+  scope appends its components to the active scope", "the active scope is private to each thread".  So the scope a block runs
+  under is compose(scope active in the entering thread when the block is entered, x) -- however long ago, under whichever
+  scope and by whichever thread the manager object was built.  Programs (1-2 real threads stepped by a fixed schedule; the
+  variables holding managers / decorated functions are shared between the threads) build managers and enter them later:
+  a manager kept in a variable and entered inside / after another block or by the other thread, a list of managers entered
+  one by one through contextlib.ExitStack (left normally or by exception), `@gin.config_scope(x)` used as a decorator (the
+  scope is entered per call, under the caller's scope, also from a decorated function called by a decorated function),
+  next to ordinary `with gin.config_scope(x):` blocks; x ranges over names, a/b shorthand, lists, None, '' and invalid names.
+  Every entry, exit and observation reports (current_scope(), value a probe configurable receives) and is compared with the
+  stack of values the thread's own entries and exits prescribe.  Implementation only: the model's `with` op builds and enters
+  in one step."""
+  name = 'scope-deferred-entry'
+  model = False
+
+  def budget(self, tier):
+    return 200 if tier == 'quick' else 4000
+
+  B = AliasEngine.B + [['s2/s1', 7], ['s1/s2/s3', 8], ['s3/s1', 9]]
+
+  def corpus(self):
+    one = lambda steps: {'bindings': self.B, 'threads': [steps], 'schedule': [0] * len(steps)}
+    cases = []
+    for raising in (False, True):
+      # managers prepared up front, entered one after the other through an ExitStack: they nest
+      cases.append(one([['stack', ['s1', 's2', 's3'], raising], ['observe'],
+                        ['with', 's3'], ['stack', ['s1', None, 's2/s1', ['s3'], 's1'], raising], ['exit', raising], ['observe']]))
+      # built outside a block, entered inside it; built inside a block, entered after leaving it
+      cases.append(one([['make', 's2', 'a'], ['with', 's1'], ['enter', 'a'], ['observe'], ['exit', raising], ['observe'],
+                        ['make', 's3', 'b'], ['make', 's2', 'c'], ['exit', False], ['enter', 'b'], ['enter', 'c'], ['observe'],
+                        ['exit', raising], ['exit', False], ['observe']]))
+      # a decorated function, called at the top, inside a block, inside a cleared block, twice in a row
+      cases.append(one([['with', 's3'], ['defdec', 's2', 'f', None], ['exit', False], ['calldec', 'f', 1], ['with', 's1'],
+                        ['calldec', 'f', 2], ['defdec', 's1', 'g', 'f'], ['with', None], ['calldec', 'g', 1], ['exit', raising],
+                        ['exit', False], ['calldec', 'g', 1], ['observe']]))
+    # a manager built by one thread inside a block, entered by another thread (and the other way round)
+    cases.append({'bindings': self.B,
+                  'threads': [[['with', 's1'], ['make', 's2', 'a'], ['defdec', 's3', 'f', None], ['observe'], ['enter', 'b'], ['observe'],
+                               ['exit', False], ['exit', False], ['observe']],
+                              [['observe'], ['enter', 'a'], ['observe'], ['make', 's1', 'b'], ['calldec', 'f', 1], ['exit', True],
+                               ['calldec', 'f', 1], ['observe']]],
+                  'schedule': [0, 0, 0, 1, 1, 1, 1, 1, 0, 0, 0, 1, 1, 1, 0, 0, 0]})
+    return cases
+
+  def gen_arg(self, rng, invalid=True):
+    r = rng.random()
+    if r < 0.5:
+      return rng.choice(ginm.SCOPES)
+    if r < 0.65:
+      return '/'.join(rng.choice(ginm.SCOPES) for _ in range(2))
+    if r < 0.78:
+      return [rng.choice(ginm.SCOPES) for _ in range(rng.randint(0, 2))]
+    if r < 0.86:
+      return None
+    if r < 0.9 or not invalid:
+      return ''
+    if r < 0.97:
+      return rng.choice(BAD)
+    return {}
+
+  def gen_thread(self, rng, n, names):
+    steps, depth, fns = [], 0, []
+    for _ in range(n):
+      r = rng.random()
+      if r < 0.2:
+        steps.append(['make', self.gen_arg(rng), rng.choice(names)])
+      elif r < 0.4 and depth < 5:
+        steps.append(['enter', rng.choice(names)])
+        depth += 1
+      elif r < 0.5 and depth < 5:
+        steps.append(['with', self.gen_arg(rng)])
+        depth += 1
+      elif r < 0.62 and depth > 0:
+        steps.append(['exit', rng.random() < 0.3])
+        depth -= 1
+      elif r < 0.7:
+        steps.append(['defdec', self.gen_arg(rng), rng.choice(names), rng.choice(names) if rng.random() < 0.4 else None])
+      elif r < 0.82:
+        steps.append(['calldec', rng.choice(names), rng.randint(1, 2)])
+      elif r < 0.9:
+        steps.append(['stack', [self.gen_arg(rng, invalid=rng.random() < 0.3) for _ in range(rng.randint(1, 4))], rng.random() < 0.3])
+      else:
+        steps.append(['observe'])
+    return steps + [['observe']]
+
+  def gen(self, rng, tier):
+    names = ['a', 'b', 'c']
+    threads = [self.gen_thread(rng, rng.randint(4, 12), names) for _ in range(rng.randint(1, 2))]
+    sched = [i for i, t in enumerate(threads) for _ in t]
+    rng.shuffle(sched)
+    return {'bindings': self.B, 'threads': threads, 'schedule': sched}
+
+  def shrink(self, case):
+    return AliasEngine.shrink(self, case)
+
+  def impl(self, case):
+    gin = C.fresh_gin()
+
+    @gin.configurable('f', module='m')
+    def f(a=None):
+      return a
+    store = {}
+    for sc, v in case['bindings']:
+      gin.bind_parameter((sc, 'm.f', 'a'), v)
+      store[sc] = v
+
+    def probe():
+      r = f()
+      return T('Unbound') if r is None else r
+    shared = {}
+    workers = [DeferredWorker(gin, probe, st, shared, store) for st in case['threads']]
+    for w in workers:
+      w.start()
+    obs, fails = [], []
+    idx = [0] * len(workers)
+    for t in case['schedule']:
+      w = workers[t]
+      st = case['threads'][t][idx[t]]
+      idx[t] += 1
+      w.go.release()
+      if not w.done.acquire(timeout=20):
+        fails.append(('harness-timeout', repr(st)))
+        break
+      o = w.out[-1]
+      obs.append([t, o])
+      if isinstance(o, T) and o.tag == 'Err':
+        fails.append(('step-raised', 'thread %d step %r: %s' % (t, st, o.args[0])))
+      elif isinstance(o, list):
+        got, want = C.jsonable(o[0]), C.jsonable(o[1])
+        if got != want:
+          kind = ('scope-not-restored' if st[0] == 'exit' else
+                  'invalid-scope-accepted' if want == C.jsonable(T('Rejected')) else
+                  'wrong-composed-scope' if st[0] != 'observe' else 'scope-changed-without-entry-or-exit')
+          fails.append((kind, 'thread %d step %d %r observes (scope, m.f.a) = %r; the scope active in this thread at that moment and the '
+                        'entry prescribe %r (program %r, schedule %r)' % (t, idx[t] - 1, st, got, want, case['threads'], case['schedule'])))
+    deferred = sum(w.deferred for w in workers)
+    return {'obs': obs, 'fails': fails[:2], 'nontrivial': deferred > 0,
+            'tags': ['threads%d' % len(workers), 'deferred%d' % min(deferred, 3)]}
+
+
+ENGINES = [SeqEngine(), SchedEngine(), AliasEngine(), DeferredEngine()]
